@@ -19,6 +19,7 @@
 #include "Util/SelectionRule.h"
 #include "Util/CompInfo.h"
 #include "Util/SimpleRandom.h"
+#include "Util/VerifHook.h"
 #include "MatOp/internal/ArnoldiOp.h"
 #include "LinAlg/UpperHessenbergQR.h"
 #include "LinAlg/TridiagEigen.h"
@@ -44,6 +45,7 @@ template <typename OpType, typename BOpType>
 class HermEigsBase
 {
 private:
+    SPECTRA_VERIF_FRIEND
     using Scalar = typename OpType::Scalar;
     // The real part type of the matrix element, e.g.,
     //     Scalar = double               => RealScalar = double
@@ -101,6 +103,7 @@ private:
     // Implicitly restarted Lanczos factorization
     void restart(Index k, SortRule selection)
     {
+        SPECTRA_VERIF_EVENT("RestartBegin", this, (long long) k);
         using std::abs;
 
         if (k >= m_ncv)
@@ -129,6 +132,7 @@ private:
             // Since QR = H - mu * I, we have H = QR + mu * I
             // and therefore Q'HQ = RQ + mu * I
             m_fac.compress_H(decomp);
+            SPECTRA_VERIF_EVENT("Shift", this, (long long) (m_ncv - nshift + i), 1, 0);
             // Note that in our setting, mu is an eigenvalue of H,
             // so after applying Q'HQ, H must have be of the following form
             // H = [X   0   0]
@@ -146,6 +150,7 @@ private:
         m_fac.factorize_from(k, m_ncv, m_nmatop);
 
         retrieve_ritzpair(selection);
+        SPECTRA_VERIF_EVENT("RestartEnd", this, (long long) k);
     }
 
     // Calculates the number of converged Ritz values
@@ -165,6 +170,7 @@ private:
         // Converged "wanted" Ritz values
         m_ritz_conv = (resid < thresh);
 
+        SPECTRA_VERIF_EVENT("NumConv", this, (long long) m_ritz_conv.count());
         return m_ritz_conv.count();
     }
 
@@ -192,6 +198,7 @@ private:
         if (nev_new > m_ncv - 1)
             nev_new = m_ncv - 1;
 
+        SPECTRA_VERIF_EVENT("NevAdj", this, (long long) nconv, (long long) nev_new);
         return nev_new;
     }
 
@@ -215,6 +222,7 @@ private:
         {
             m_ritz_vec.col(i).noalias() = evecs.col(ind[i]);
         }
+        SPECTRA_VERIF_EVENT("Retrieve", this, (long long) selection);
     }
 
 protected:
@@ -226,6 +234,7 @@ protected:
             (sort_rule != SortRule::SmallestAlge) && (sort_rule != SortRule::SmallestMagn))
             throw std::invalid_argument("unsupported sorting rule");
 
+        SPECTRA_VERIF_EVENT("SortBegin", this, (long long) sort_rule);
         std::vector<Index> ind = argsort(sort_rule, m_ritz_val, m_nev);
 
         RealVector new_ritz_val(m_ncv);
@@ -242,6 +251,7 @@ protected:
         m_ritz_val.swap(new_ritz_val);
         m_ritz_vec.swap(new_ritz_vec);
         m_ritz_conv.swap(new_ritz_conv);
+        SPECTRA_VERIF_EVENT("SortEnd", this, (long long) sort_rule);
     }
 
 public:
@@ -302,6 +312,7 @@ public:
     ///
     void init(const Scalar* init_resid)
     {
+        SPECTRA_VERIF_EVENT("InitBegin", this, 0);
         // Reset all matrices/vectors to zero
         m_ritz_val.resize(m_ncv);
         m_ritz_vec.resize(m_ncv, m_nev);
@@ -319,6 +330,7 @@ public:
         // Initialize the Lanczos factorization
         MapConstVec v0(init_resid, m_n);
         m_fac.init(v0, m_nmatop);
+        SPECTRA_VERIF_EVENT("InitEnd", this, (long long) m_nmatop);
     }
 
     ///
@@ -360,6 +372,7 @@ public:
     Index compute(SortRule selection = SortRule::LargestMagn, Index maxit = 1000,
                   RealScalar tol = 1e-10, SortRule sorting = SortRule::LargestAlge)
     {
+        SPECTRA_VERIF_EVENT("ComputeBegin", this, (long long) selection, (long long) maxit, (long long) sorting);
         // The m-step Lanczos factorization
         m_fac.factorize_from(1, m_ncv, m_nmatop);
         retrieve_ritzpair(selection);
@@ -380,6 +393,7 @@ public:
         m_niter += i + 1;
         m_info = (nconv >= m_nev) ? CompInfo::Successful : CompInfo::NotConverging;
 
+        SPECTRA_VERIF_EVENT("ComputeEnd", this, (long long) (std::min)(m_nev, nconv), (long long) m_info, (long long) m_niter, (long long) m_nmatop);
         return (std::min)(m_nev, nconv);
     }
 
